@@ -6498,6 +6498,8 @@ class Path(Shape, MutableSequence):
             p += subpath
         self._segments = p._segments
         self._segments[0].start = prepoint
+        self._length = None
+        self._lengths = None
         return self
 
     def subpath(self, index):
@@ -7888,6 +7890,9 @@ class Subpath:
         size = len(self)
         if size == 0:
             return
+        # The order of the segments changes: lengths cached by the path no longer line up with them.
+        self._path._length = None
+        self._path._lengths = None
         start = 0
         end = size - 1
         if isinstance(self[-1], Close):
